@@ -29,8 +29,8 @@ const (
 func init() {
 	register(Property{ID: "C33", Level: "other", Run: runC33,
 		Technique: "static analysis: SSA path conditions and block-level pairing (typestate of the byte counter), who-may-write tables, lock-state dataflow",
-		Text: "Decides on all paths of Reorderer.Push/flushUpTo: every insertion into pending is preceded by the subtraction of a replaced entry's payload size and followed in the same block by the addition of the inserted subgroup's size; every removal from pending is paired in the same block with the subtraction of the removed entry's size and with appending that entry to the output (so nothing delivered stays pending and nothing is delivered twice); after an insertion a return without a flush carries both ¬(len(pending) > MaxReordered) and ¬(pendingBytes > MaxPendingBytes), and a flush is up to the inserted group id; insertion happens only for ids newer than the last delivered one; the immediate-delivery return carries id == cur+1 and advances cur; flushUpTo sorts the collected ids before output, selects exactly cur < id <= max, sets cur = max and then drains consecutive ids advancing cur by one per entry; pending/pendingBytes/curGroupID/initialized are touched only in Push/flushUpTo/Initialize and only with r.mu held. Not decided: the ordering/at-most-once/bounds invariants over push histories (value-level), payload size arithmetic.",
-		Note: "trusted: sync.Mutex, slices.Sort, map semantics; the limit clause relies on the (undecided) invariant that the limits held before the push"})
+		Text:      "Decides on all paths of Reorderer.Push/flushUpTo: every insertion into pending is preceded by the subtraction of a replaced entry's payload size and followed in the same block by the addition of the inserted subgroup's size; every removal from pending is paired in the same block with the subtraction of the removed entry's size and with appending that entry to the output (so nothing delivered stays pending and nothing is delivered twice); after an insertion a return without a flush carries both ¬(len(pending) > MaxReordered) and ¬(pendingBytes > MaxPendingBytes), and a flush is up to the inserted group id; insertion happens only for ids newer than the last delivered one; the immediate-delivery return carries id == cur+1 and advances cur; flushUpTo sorts the collected ids before output, selects exactly cur < id <= max, sets cur = max and then drains consecutive ids advancing cur by one per entry; pending/pendingBytes/curGroupID/initialized are touched only in Push/flushUpTo/Initialize and only with r.mu held. Not decided: the ordering/at-most-once/bounds invariants over push histories (value-level), payload size arithmetic.",
+		Note:      "trusted: sync.Mutex, slices.Sort, map semantics; the limit clause relies on the (undecided) invariant that the limits held before the push"})
 	addMutants(
 		Mutant{"C33", "replace-leaks-bytes", "internal/protocols/moq/reorderer/reorderer.go",
 			"		if prev, ok := r.pending[sg.Header.GroupID]; ok {\n			r.pendingBytes -= subGroupPayloadSize(prev)\n		}\n", "", "C33.accounting"},
@@ -214,7 +214,10 @@ func runC33(c *Ctx) {
 
 	// ---- guards
 	if len(inserts) > 0 {
-		c.MustPass(p, push, "C33.guard.insert_only_newer", "insert into pending", func(i ssa.Instruction) bool { _, ok := i.(*ssa.MapUpdate); return ok && i.Parent() == push && isPendingUpdate(i) }, T(c33Newer))
+		c.MustPass(p, push, "C33.guard.insert_only_newer", "insert into pending", func(i ssa.Instruction) bool {
+			_, ok := i.(*ssa.MapUpdate)
+			return ok && i.Parent() == push && isPendingUpdate(i)
+		}, T(c33Newer))
 		c.MustPass(p, push, "C33.guard.insert_only_initialized", "insert into pending", func(i ssa.Instruction) bool { return isPendingUpdate(i) }, T("$0.initialized"))
 	}
 	direct := func(i ssa.Instruction) bool {
